@@ -167,4 +167,158 @@ func factsC19() {
 		}
 	}
 	fmt.Fprintf(&out, "Definition f_session_terminate_pool_ops : list string := %s.\n", strList(term))
+	factsC19View()
+}
+
+// ---- the refresh loop of the service list (SessionView.v) ----
+
+// c19ViewSkeleton renders the statements of updateLoop (with the methods of Session it calls
+// inlined, at most 3 deep) as tokens; whatever it does not recognise is kept verbatim.
+func c19ViewSkeleton(f *file, stmts []ast.Stmt, depth int) []string {
+	var out []string
+	txt := func(n ast.Node) string { return strings.Join(strings.Fields(exprText(f.fset, n)), " ") }
+	closedReturn := func(s *ast.IfStmt) bool {
+		if s.Init != nil || s.Else != nil || txt(s.Cond) != "!ok" || len(s.Body.List) != 1 {
+			return false
+		}
+		r, ok := s.Body.List[0].(*ast.ReturnStmt)
+		return ok && len(r.Results) == 0
+	}
+	for _, st := range stmts {
+		switch s := st.(type) {
+		case *ast.ForStmt:
+			if s.Init != nil || s.Cond != nil || s.Post != nil {
+				out = append(out, "stmt:"+txt(s))
+				continue
+			}
+			out = append(out, "for{")
+			out = append(out, c19ViewSkeleton(f, s.Body.List, depth)...)
+			out = append(out, "}")
+		case *ast.SelectStmt:
+			out = append(out, "select{")
+			for _, c := range s.Body.List {
+				cc := c.(*ast.CommClause)
+				switch {
+				case cc.Comm == nil:
+					out = append(out, "default{")
+				default:
+					as, ok := cc.Comm.(*ast.AssignStmt)
+					if ok && len(as.Lhs) == 2 && txt(as.Lhs[0]) == "_" && txt(as.Lhs[1]) == "ok" && len(as.Rhs) == 1 && strings.HasPrefix(txt(as.Rhs[0]), "<-") {
+						out = append(out, "recv("+strings.TrimPrefix(txt(as.Rhs[0]), "<-")+"){")
+					} else {
+						out = append(out, "comm("+txt(cc.Comm)+"){")
+					}
+				}
+				out = append(out, c19ViewSkeleton(f, cc.Body, depth)...)
+				out = append(out, "}")
+			}
+			out = append(out, "}")
+		case *ast.IfStmt:
+			switch {
+			case closedReturn(s):
+				out = append(out, "if-closed-return")
+			case s.Init == nil && s.Else == nil && txt(s.Cond) == "err != nil":
+				out = append(out, "if-err{")
+				out = append(out, c19ViewSkeleton(f, s.Body.List, depth)...)
+				out = append(out, "}")
+			case s.Else == nil && s.Init != nil && txt(s.Init) == "err := s.Terminate()" && txt(s.Cond) == "err != nil":
+				// the body only logs
+				body := c19ViewSkeleton(f, s.Body.List, depth)
+				out = append(out, "terminate")
+				for _, t := range body {
+					if t != "log" {
+						out = append(out, t)
+					}
+				}
+			default:
+				out = append(out, "stmt:"+txt(s))
+			}
+		case *ast.ExprStmt:
+			c, ok := s.X.(*ast.CallExpr)
+			if !ok {
+				out = append(out, "stmt:"+txt(s))
+				continue
+			}
+			callee := txt(c.Fun)
+			switch {
+			case callee == "log.Printf":
+				out = append(out, "log")
+			case callee == "s.serviceListMutex.Lock":
+				out = append(out, "Lock")
+			case callee == "s.serviceListMutex.Unlock":
+				out = append(out, "Unlock")
+			case strings.HasPrefix(callee, "s.") && !strings.Contains(strings.TrimPrefix(callee, "s."), ".") && len(c.Args) == 0 && depth < 3:
+				_, fd := funcDecl(c19file, "Session", strings.TrimPrefix(callee, "s."))
+				if fd == nil || fd.Body == nil {
+					out = append(out, "stmt:"+txt(s))
+					continue
+				}
+				out = append(out, c19ViewSkeleton(f, fd.Body.List, depth+1)...)
+			default:
+				out = append(out, "stmt:"+txt(s))
+			}
+		case *ast.AssignStmt:
+			lhs := make([]string, len(s.Lhs))
+			for i, l := range s.Lhs {
+				lhs[i] = txt(l)
+			}
+			l := strings.Join(lhs, ",")
+			rhs := ""
+			if len(s.Rhs) == 1 {
+				rhs = txt(s.Rhs[0])
+			}
+			switch {
+			case l == "services,err" && rhs == "s.Directory.Services()" && s.Tok == token.DEFINE:
+				out = append(out, "call-services")
+			case l == "s.serviceList" && rhs == "services" && s.Tok == token.ASSIGN:
+				out = append(out, "store")
+			default:
+				out = append(out, "stmt:"+txt(s))
+			}
+		default:
+			out = append(out, "stmt:"+txt(st))
+		}
+	}
+	return out
+}
+
+// c19FieldUsers lists the functions of the file that mention one of the fields
+func c19FieldUsers(fields ...string) []string {
+	var users []string
+	if ff := load(c19file); ff != nil {
+		for _, d := range ff.f.Decls {
+			fn, ok := d.(*ast.FuncDecl)
+			if !ok || fn.Body == nil {
+				continue
+			}
+			uses := false
+			ast.Inspect(fn.Body, func(n ast.Node) bool {
+				if se, ok := n.(*ast.SelectorExpr); ok {
+					for _, fld := range fields {
+						if se.Sel.Name == fld {
+							uses = true
+						}
+					}
+				}
+				return true
+			})
+			if uses {
+				users = append(users, fn.Name.Name)
+			}
+		}
+	}
+	sort.Strings(users)
+	return users
+}
+
+func factsC19View() {
+	f, fd := funcDecl(c19file, "Session", "updateLoop")
+	var toks []string
+	if fd != nil {
+		toks = c19ViewSkeleton(f, fd.Body.List, 0)
+	}
+	fmt.Fprintf(&out, "Definition f_session_update_loop : list string := %s.\n", strList(toks))
+	// who reads or writes the list, who touches the two signal channels
+	fmt.Fprintf(&out, "Definition f_session_list_users : list string := %s.\n", strList(c19FieldUsers("serviceList")))
+	fmt.Fprintf(&out, "Definition f_session_signal_users : list string := %s.\n", strList(c19FieldUsers("added", "removed")))
 }
